@@ -640,6 +640,13 @@ func (c *specCtx) binary(n *ast.BinaryExpr) (sv, error) {
 	case token.EQL, token.NEQ:
 		var term string
 		switch {
+		case a.A != nil || b.A != nil:
+			// a derived address (&x.f, &s[i]) is never nil
+			if (a.A != nil && b.A == nil && b.S == "0") || (b.A != nil && a.A == nil && a.S == "0") {
+				term = "false"
+			} else {
+				return sv{}, c.errf("comparison of derived addresses is not supported")
+			}
 		case isString(t):
 			term = e.strEqTerm(a.S, b.S)
 		case isSliceT(t):
@@ -773,6 +780,21 @@ func (c *specCtx) call(n *ast.CallExpr) (sv, error) {
 			return sv{}, err
 		}
 		return c.mk(tBool, imp(a.S, b.S)), nil
+	case "same":
+		// structural (SMT) equality: stronger than Go's == on strings, quantifier-free
+		a, err := c.eval(args[0])
+		if err != nil {
+			return sv{}, err
+		}
+		b, err := c.eval(args[1])
+		if err != nil {
+			return sv{}, err
+		}
+		a, b, err = c.unify(a, b)
+		if err != nil {
+			return sv{}, err
+		}
+		return c.mk(tBool, eq(a.S, b.S)), nil
 	case "iff":
 		a, err := c.eval(args[0])
 		if err != nil {
